@@ -300,3 +300,10 @@ C19P = ("C19-", "P1:", "P2:", "P3:", "P4:", "P5:")
 CONTRACTS = [InitTags(), ScopeLog(),
              type("C19ScopeFactory", (ScopeFactory,), dict(keep=staticmethod(lambda n: n.startswith("C19-") or n == "canary")))()] + \
             [_mk(lv, v) for lv in LEVELS for v in (False, True)]
+
+# "outside any scope messages go untagged to the root logger", "an outermost scope without one gets a fresh id / a logger named after
+# it": which scope counts as current is the metrics variable - restored (or cleared) on every way out of a block
+from .C02 import AsyncScope as _AsyncScope, SyncScope as _SyncScope, variant as _variant      # noqa: E402
+
+_c19 = lambda n: n.startswith("C02-P0") or "MetricsContext-variable-is-what-it-was" in n      # noqa: E731
+CONTRACTS = CONTRACTS + [_variant(_AsyncScope, "C19", _c19), _variant(_SyncScope, "C19", _c19)]
